@@ -182,7 +182,14 @@ def run_case(case, tier, known):
         break
     if not any_cover:
       res["cover"] = "vacuous"
+    budget = float(os.environ.get("PYVC_CASE_BUDGET_S", "300" if tier == "quick" else "1500"))
     for cname in clause_names:
+      if time.time() - t0 > budget:
+        # wall-clock budget of the case exhausted: the remaining clauses stay undecided (never a violation)
+        res["clauses"][cname] = {"kind": "claim", "status": "unknown", "vcs": 0, "seconds": 0.0, "solvers": {},
+                                 "witness": None, "model_raw": None, "known": [], "path": None, "probe": None,
+                                 "reason": "case wall-clock budget (%ds) exhausted before this clause" % budget}
+        continue
       res["clauses"][cname] = _run_clause(case, cname, per_path, timeout, known.get(cname, []), res)
   except Unsupported as e:
     res["undecided_reason"] = "unsupported: %s" % e
